@@ -17,7 +17,7 @@ RULE = (
 ASSUMPTIONS = ["garbage texts are not the start of any Fortran statement", "free-form sources"]
 BOUNDS = {
     "quick": dict(nest_depth=2, nest_garbage=2, nest_prev_cont=False, nest_ic=(True,)),
-    "thorough": dict(nest_depth=3, nest_garbage=4, nest_prev_cont=True, nest_ic=(True, False)),
+    "thorough": dict(nest_depth=3, nest_garbage=4, nest_prev_cont=True, nest_ic=(True, False), depth3="1 garbage text, previous statement not continued, comments ignored"),
 }
 GARBAGE = ["@@@ ???", "this is not fortran", "1 2 3", "= = ="]
 RENDER = ["one", "two", "three-comment"]
@@ -163,6 +163,9 @@ def run(task):
     garbage = GARBAGE if full else GARBAGE[: b["nest_garbage"]]
     pcs = (False, True) if (full or b["nest_prev_cont"]) else (False,)
     ics = (True, False) if full else b["nest_ic"]
+    if not full and task[2] >= 3:
+        # depth-3 nests (15^3 sequences): one garbage text, comments ignored
+        garbage, pcs, ics = GARBAGE[:1], (False,), (True,)
     for pid, prog in progs_of(task):
         stds = G.stds_for(prog)
         for si, s in enumerate(prog):
